@@ -175,8 +175,9 @@ def main(argv):
         outs = []
         for rest in lists:
             used, out = run_one(d["formula"], d["mass"], (d["fluence"], d["Cd_ratio"], d["fast_ratio"]), d["exposure"], rest, d["target"])
-            where = dict(d, rest_times=list(rest))
-            where.pop("other_rest_times", None); where.pop("other_outcome", None); where.pop("observed", None)
+            where = dict((k, d[k]) for k in ("formula", "mass", "fluence", "Cd_ratio", "fast_ratio", "exposure", "target") if k in d)
+            where["rest_times"] = list(rest)
+            where["factor"] = d.get("factor")
             kind = judge(fails, where, a0, rest, d["target"], out)
             outs.append((rest, out))
             cases.append(case_term(a0, used, rest, d["target"], out))
